@@ -28,7 +28,7 @@ ASSUMPTIONS = ["XForms are compared as exact text (same process, same hash seed)
 def plan(tier, seed):
     n = 1600 if tier == "quick" else 24000
     return {"shards": 16, "timeout": 900 if tier == "quick" else 3000, "n": n,
-            "floors": {"R1_evaluated": n // 2, "R3_evaluated": n // 2, "distinct": 50}}
+            "floors": {"suite_conversions_judged": 500, "R1_evaluated": n // 2, "R3_evaluated": n // 2, "distinct": 50}}
 
 
 def make_form(rng, i):
